@@ -108,8 +108,10 @@ ITEMS = [
          canaries=['C20:no_comment_inside_flow_context', 'C20:comment_is_emitted_as_hash_text_newline']),
     # TupleSer::serialize_field is generic over serde::Serialize; the statement that stages the comment is lifted
     dict(src=SR, path='impl SerializeTupleStruct for TupleSer/fn serialize_field', id='TupleSer::serialize_field#stage_comment',
-         fragment=r'let sanitized = comment\.replace\([^;]*;', props=['C20'],
+         fragment=r'let sanitized = [^;]*;', props=['C20'],
          wrapper='fn stage_comment_fragment(comment: String) -> String { {FRAG} sanitized }',
+         bounded=dict(harness='bounded/stage_comment.rs', items=[('src/ser.rs', 'impl SerializeTupleStruct for TupleSer/fn serialize_field', r'let sanitized = [^;]*;',
+                                                                   'fn stage_comment_fragment(comment: String) -> String { {FRAG} sanitized }')]),
          rewrites=[(r"comment\.replace\(\['\\n', '\\r'\], \" \"\)", "string_replace_chars2(&comment, '\\\\n', '\\\\r', \" \")", None, 'R8'),
                    (r"comment\.replace\('\\n', \" \"\)", "string_replace_char(&comment, '\\\\n', \" \")", None, 'R8')],
          proofs=[dict(at='start', text='reveal_strlit(" "); lemma_replaced2_break_free(comment@); assert(" "@ =~= seq![\' \']);')],
@@ -421,42 +423,49 @@ ITEMS = [
                         decreases='__n1 - __i1')},
          canaries=['C12:a_key_is_written_raw_only_if_it_reads_back_as_itself_in_block_and_flow_mappings_else_double_quoted']),
     # ---- float text (C12: "emitted floats always match YAML's float grammar (a decimal point, signed exponent)") ----
-    # the digits come from the external crate zmij (shortest round-trip formatting; assumed ASCII); what this crate adds
-    # is the normalisation of that text, lifted from both copies (fmt::Write sink and String)
-    dict(src='src/zmij_format.rs', path='fn write_float_string', id='write_float_string#normalise', props=['C12', 'C01'],
-         fragment=r"if let Some\(exp_pos\) = s\.find\('e'\).*?\} else \{\s*target\.write_str\(s\)\?;\s*\}", fragment_flags='S',
-         wrapper='fn write_float_text_fragment(target: &mut Sink, s: &str) -> Result<(), SerError> { {FRAG} Ok(()) }',
-         pre_rewrites=[(r"s\.find\('e'\)\.or_else\(\|\| s\.find\('E'\)\)", "(match ascii_find(s, 'e') { Some(__p) => Some(__p), None => ascii_find(s, 'E') })", 1, 'R18'),
-                       (r'matches!\(s\.as_bytes\(\)\.get\(([^,()]+)\), Some\(([^()]*)\)\)', _BYTE_SET, 1, 'R8')],
+    # whole functions (monomorphised to f64, rule R9): which text is written for which float.  The digits come from the
+    # external formatter (zmij, uninterpreted `zmij_text`); any other way of producing digits is outside this contract.
+    dict(src='src/zmij_format.rs', path='fn write_float_string', id='write_float_string<f64>', props=['C12', 'C01'],
+         bounded=dict(harness='bounded/float_text.rs', items=[('src/zmij_format.rs', '*')], subs=[(r'use crate::ser;', 'use super::ser;')],
+                      cargo_deps={'zmij': '1.0', 'num-traits': '0.2'}),
+         pre_rewrites=[(r'pub\(crate\) fn write_float_string<F: Float \+ FloatCore, W: Write>\(\s*target: &mut W,\s*f: F,\s*\) -> ser::Result<\(\)>',
+                        'fn write_float_string(target: &mut Sink, f: f64) -> Result<(), SerError>', 1, 'R9'),
+                       (r"s\.find\('e'\)\.or_else\(\|\| s\.find\('E'\)\)", "(match ascii_find(s, 'e') { Some(__p) => Some(__p), None => ascii_find(s, 'E') })", 1, 'R18'),
+                       (r'matches!\(s\.as_bytes\(\)\.get\(([^,()]+)\), Some\(([^()]*)\)\)', _BYTE_SET, 1, 'R8'),
+                       (r'f\.is_nan\(\)', 'fl_is_nan(f)', None, 'R8'), (r'f\.is_infinite\(\)', 'fl_is_infinite(f)', None, 'R8'), (r'f\.is_sign_positive\(\)', 'fl_is_sign_positive(f)', None, 'R8'),
+                       (r'let mut buf = zmij::Buffer::new\(\);', 'let mut buf = ZmijBuffer::new();', 1, 'R6')],
          rewrites=[(r"s\[\.\.exp_pos\]\.contains\('\.'\)", "ascii_contains(ascii_slice(s, 0, exp_pos), '.')", None, 'R8'),
                    (r'&s\[\.\.exp_pos\]', 'ascii_slice(s, 0, exp_pos)', None, 'R8'),
                    (r'&s\[exp_pos\.\.=exp_pos\]', 'ascii_slice(s, exp_pos, exp_pos + 1)', None, 'R8'),
                    (r'&s\[exp_pos \+ 1\.\.\]', 'ascii_slice(s, exp_pos + 1, ascii_len(s))', None, 'R8'),
-                   
                    (r"!s\.contains\('\.'\)", "!ascii_contains(s, '.')", None, 'R8')],
-         requires=[('assumed:zmij_text_is_ascii', 'all_ascii(s@)'), ('a_str_is_shorter_than_the_address_space', 's@.len() < usize::MAX')],
-         proofs=[dict(at='start', text='reveal_strlit(".0"); lemma_float_norm_grammar(s@); lemma_first_index(s@, \'e\'); lemma_first_index(s@, \'E\');')],
-         ensures=[('C12:float_text_is_the_formatted_digits_with_only_point_zero_and_an_exponent_sign_inserted',
-                   'r is Ok ==> final(target).text() =~= old(target).text() + float_norm(s@)'),
+         proofs=[dict(at='start', text='reveal_strlit(".0"); reveal_strlit(".nan"); reveal_strlit(".inf"); reveal_strlit("-.inf"); lemma_float_norm_grammar(zmij_text(f));'),
+                 dict(after_re=r'let s = buf\.format_finite\(f\);', text="lemma_first_index(s@, 'e'); lemma_first_index(s@, 'E');")],
+         ensures=[('C12:a_float_is_written_as_nan_inf_or_the_formatter_digits_normalised_to_yaml_float_grammar',
+                   'r is Ok ==> final(target).text() =~= old(target).text() + float_text(f)'),
                   ('C12:float_text_has_a_decimal_point_in_the_mantissa_and_a_signed_exponent',
-                   'mantissa_has_point(float_norm(s@)) && exponent_is_signed(float_norm(s@))')],
-         canaries=['C12:float_text_is_the_formatted_digits_with_only_point_zero_and_an_exponent_sign_inserted']),
-    dict(src='src/zmij_format.rs', path='fn push_float_string', id='push_float_string#normalise', props=['C12', 'C01'],
-         fragment=r"if let Some\(exp_pos\) = s\.find\('e'\).*?\} else \{\s*target\.push_str\(s\);\s*\}", fragment_flags='S',
-         wrapper='fn push_float_text_fragment(target: &mut String, s: &str) { {FRAG} }',
-         pre_rewrites=[(r"s\.find\('e'\)\.or_else\(\|\| s\.find\('E'\)\)", "(match ascii_find(s, 'e') { Some(__p) => Some(__p), None => ascii_find(s, 'E') })", 1, 'R18'),
-                       (r'matches!\(s\.as_bytes\(\)\.get\(([^,()]+)\), Some\(([^()]*)\)\)', _BYTE_SET, 1, 'R8')],
+                   '!fl_nan(f) && !fl_inf(f) ==> mantissa_has_point(float_text(f)) && exponent_is_signed(float_text(f))')],
+         canaries=['C12:a_float_is_written_as_nan_inf_or_the_formatter_digits_normalised_to_yaml_float_grammar']),
+    dict(src='src/zmij_format.rs', path='fn push_float_string', id='push_float_string<f64>', props=['C12', 'C01'],
+         bounded=dict(harness='bounded/float_text.rs', items=[('src/zmij_format.rs', '*')], subs=[(r'use crate::ser;', 'use super::ser;')],
+                      cargo_deps={'zmij': '1.0', 'num-traits': '0.2'}),
+         pre_rewrites=[(r'pub\(crate\) fn push_float_string<F: Float \+ FloatCore>\(\s*target: &mut String,\s*f: F,\s*\) -> ser::Result<\(\)>',
+                        'fn push_float_string(target: &mut String, f: f64) -> Result<(), SerError>', 1, 'R9'),
+                       (r"s\.find\('e'\)\.or_else\(\|\| s\.find\('E'\)\)", "(match ascii_find(s, 'e') { Some(__p) => Some(__p), None => ascii_find(s, 'E') })", 1, 'R18'),
+                       (r'matches!\(s\.as_bytes\(\)\.get\(([^,()]+)\), Some\(([^()]*)\)\)', _BYTE_SET, 1, 'R8'),
+                       (r'f\.is_nan\(\)', 'fl_is_nan(f)', None, 'R8'), (r'f\.is_infinite\(\)', 'fl_is_infinite(f)', None, 'R8'), (r'f\.is_sign_positive\(\)', 'fl_is_sign_positive(f)', None, 'R8'),
+                       (r'let mut buf = zmij::Buffer::new\(\);', 'let mut buf = ZmijBuffer::new();', 1, 'R6'),
+                       (r'target\.reserve\([^;]*\);', '', None, 'R36')],
          rewrites=[(r"s\[\.\.exp_pos\]\.contains\('\.'\)", "ascii_contains(ascii_slice(s, 0, exp_pos), '.')", None, 'R8'),
                    (r'&s\[\.\.exp_pos\]', 'ascii_slice(s, 0, exp_pos)', None, 'R8'),
                    (r'&s\[exp_pos\.\.=exp_pos\]', 'ascii_slice(s, exp_pos, exp_pos + 1)', None, 'R8'),
                    (r'&s\[exp_pos \+ 1\.\.\]', 'ascii_slice(s, exp_pos + 1, ascii_len(s))', None, 'R8'),
-                   
                    (r"!s\.contains\('\.'\)", "!ascii_contains(s, '.')", None, 'R8'),
                    (r'target\.push_str\(([^;]*)\);', r'string_push_str(target, \1);', None, 'R8'),
                    (r"target\.push\(([^;]*)\);", r'string_push(target, \1);', None, 'R8')],
-         requires=[('assumed:zmij_text_is_ascii', 'all_ascii(s@)'), ('a_str_is_shorter_than_the_address_space', 's@.len() < usize::MAX')],
-         proofs=[dict(at='start', text='reveal_strlit(".0"); lemma_first_index(s@, \'e\'); lemma_first_index(s@, \'E\');')],
-         ensures=[('C12:float_text_is_the_formatted_digits_with_only_point_zero_and_an_exponent_sign_inserted',
-                   'final(target)@ =~= old(target)@ + float_norm(s@)')],
-         canaries=['C12:float_text_is_the_formatted_digits_with_only_point_zero_and_an_exponent_sign_inserted']),
+         proofs=[dict(at='start', text='reveal_strlit(".0"); reveal_strlit(".nan"); reveal_strlit(".inf"); reveal_strlit("-.inf");'),
+                 dict(after_re=r'let s = buf\.format_finite\(f\);', text="lemma_first_index(s@, 'e'); lemma_first_index(s@, 'E');")],
+         ensures=[('C12:a_float_is_written_as_nan_inf_or_the_formatter_digits_normalised_to_yaml_float_grammar',
+                   'r is Ok ==> final(target)@ =~= old(target)@ + float_text(f)')],
+         canaries=['C12:a_float_is_written_as_nan_inf_or_the_formatter_digits_normalised_to_yaml_float_grammar']),
 ]
